@@ -4,6 +4,9 @@ import SimbodyProofs.TreeDynRefine
 import SimbodyProofs.TreeDynSim
 import SimbodyProofs.TreeDynSimAbi
 import SimbodyProofs.TreeDynSimFwd
+import Mathlib.Tactic.Linarith
+import Mathlib.Tactic.Positivity
+import Mathlib.Tactic.NormNum
 
 /-!
 # C01 — mass-matrix operators agree; M is symmetric positive definite; KE = ½ uᵀ M u
@@ -226,5 +229,92 @@ theorem exec_mulMInv (f : Array F) (ta : Tr (Body F × Abi F)) (AP : SV F) (hok 
         = accP zb (udotA zb zb fieldF) (absT (decA (exM f)) ta) ((phiMat ta.val.1.l)ᵀ *ᵥ AP.toVec) :=
   sim_mInv_down f ta AP hok hwf
 end simulation
+
+
+/-! ## the positive-definiteness hypothesis is satisfiable by the executable data type (6-D) -/
+section posdef6
+open TreeDyn
+variable {K : Type} [Field K] [LinearOrder K] [IsStrictOrderedRing K]
+
+/-- the quadratic form of a spatial inertia: `xᵀ M x = m ( wᵀ(G − pointMass(p)) w + |v − p × w|² )` -/
+theorem spatialInertia_quadratic (s : SpI K) (w v : V3 K) :
+    (⟨w, v⟩ : SV K).toVec ⬝ᵥ (s.toMat *ᵥ (⟨w, v⟩ : SV K).toVec)
+      = s.m * (w.dot ((s.G.sub (Sym3.pointMassAt s.p)).mulVec w) + (v.sub (s.p.cross w)).dot (v.sub (s.p.cross w))) := by
+  rw [← SpI.mulSV_toVec, ← SV.dot_toVec]
+  cases s with
+  | mk m p G =>
+    cases p; cases G; cases w; cases v
+    simp only [SV.dot, SpI.mulSV, SV.smul, V3.dot, V3.smul, V3.add, V3.sub, V3.cross, Sym3.mulVec, Sym3.sub,
+      Sym3.pointMassAt]
+    ring
+
+
+theorem v3_dot_self_nonneg (a : V3 K) : 0 ≤ a.dot a := by
+  simp only [V3.dot]; nlinarith [mul_self_nonneg a.x, mul_self_nonneg a.y, mul_self_nonneg a.z]
+
+theorem v3_dot_self_pos (a : V3 K) (h : a.x ≠ 0 ∨ a.y ≠ 0 ∨ a.z ≠ 0) : 0 < a.dot a := by
+  simp only [V3.dot]
+  rcases h with h | h | h
+  · have := mul_self_pos.mpr h; nlinarith [mul_self_nonneg a.y, mul_self_nonneg a.z]
+  · have := mul_self_pos.mpr h; nlinarith [mul_self_nonneg a.x, mul_self_nonneg a.z]
+  · have := mul_self_pos.mpr h; nlinarith [mul_self_nonneg a.x, mul_self_nonneg a.y]
+
+/-- **a rigid body's spatial inertia matrix is positive definite**: positive mass and positive definite central unit
+inertia `G − pointMass(p)` (what `Inertia` validity of a non-degenerate body means) -/
+theorem spatialInertia_posdef (s : SpI K) (hm : 0 < s.m)
+    (hG : ∀ w : V3 K, (w.x ≠ 0 ∨ w.y ≠ 0 ∨ w.z ≠ 0) → 0 < w.dot ((s.G.sub (Sym3.pointMassAt s.p)).mulVec w)) :
+    PDq s.toMat := by
+  intro x hx
+  -- every vector on Fin 3 ⊕ Fin 3 is the embedding of a spatial vector
+  set w : V3 K := ⟨x (Sum.inl 0), x (Sum.inl 1), x (Sum.inl 2)⟩ with hw
+  set v : V3 K := ⟨x (Sum.inr 0), x (Sum.inr 1), x (Sum.inr 2)⟩ with hv
+  have hxe : x = (⟨w, v⟩ : SV K).toVec := by
+    funext i
+    rcases i with i | i <;> fin_cases i <;> simp [SV.toVec, V3.toFun, hw, hv]
+  rw [hxe, spatialInertia_quadratic]
+  apply mul_pos hm
+  by_cases hw0 : w.x ≠ 0 ∨ w.y ≠ 0 ∨ w.z ≠ 0
+  · have h1 := hG w hw0
+    have h2 := v3_dot_self_nonneg (v.sub (s.p.cross w))
+    linarith
+  · push Not at hw0
+    obtain ⟨h0, h1, h2⟩ := hw0
+    have hcross : s.p.cross w = ⟨0, 0, 0⟩ := by
+      simp only [V3.cross, h0, h1, h2]; simp
+    have hq : w.dot ((s.G.sub (Sym3.pointMassAt s.p)).mulVec w) = 0 := by
+      simp only [V3.dot, Sym3.mulVec, h0, h1, h2]; simp
+    have hvne : v.x ≠ 0 ∨ v.y ≠ 0 ∨ v.z ≠ 0 := by
+      by_contra hcon
+      push Not at hcon
+      apply hx
+      funext i
+      rcases i with i | i <;> fin_cases i
+      · exact h0
+      · exact h1
+      · exact h2
+      · exact hcon.1
+      · exact hcon.2.1
+      · exact hcon.2.2
+    have hs : v.sub (s.p.cross w) = v := by rw [hcross]; cases v; simp [V3.sub]
+    rw [hq, hs, zero_add]
+    exact v3_dot_self_pos v hvne
+
+/-- a pin about `z` is an injective hinge map -/
+theorem pin_injective (u : Fin 1 → K) (h : hMat [(⟨⟨0, 0, 1⟩, ⟨0, 0, 0⟩⟩ : SV K)] *ᵥ u = 0) : u = 0 := by
+  funext j
+  have := congrFun h (Sum.inl 2)
+  fin_cases j
+  simpa [hMat, Matrix.mulVec, dotProduct, SV.toVec, V3.toFun] using this
+
+/-- non-vacuity in 6-D: a body with mass 2, mass centre `(1,0,0)` and unit central inertia satisfies the hypotheses of
+`spatialInertia_posdef` (so `mulM_posdef` / `WF_of_posdef` apply to executed trees built from such bodies and pins) -/
+example : PDq (SpI.toMat (⟨2, ⟨1, 0, 0⟩, ⟨1, 2, 2, 0, 0, 0⟩⟩ : SpI ℚ)) := by
+  apply spatialInertia_posdef
+  · norm_num
+  · intro w hw
+    have : w.dot ((Sym3.sub (⟨1, 2, 2, 0, 0, 0⟩ : Sym3 ℚ) (Sym3.pointMassAt ⟨1, 0, 0⟩)).mulVec w) = w.dot w := by
+      cases w; simp [V3.dot, Sym3.mulVec, Sym3.sub, Sym3.pointMassAt]; ring
+    rw [this]; exact v3_dot_self_pos w hw
+end posdef6
 
 end C01
